@@ -8,9 +8,20 @@
   hash function `hash`; the only thing assumed about it is `C11.HashRespectsEq hash`
   (equal values hash equally), so every theorem holds for every collision pattern.
   `l.length < 2^64` is not a restriction of the property: Go slice lengths are `int`.
+
+  Last section, "Values are immutable": a reference-level heap model of the Go objects (Model/Alias.lean:
+  caller-owned slices and maps at addresses, value structs holding references to internal containers, every
+  constructor / accessor / iterator / decoder exactly as it copies or aliases) and the theorems
+  `C11_immutable_*`: under the separation invariant every operation of a history — constructing from a caller
+  container, keeping an accessor's output, mutating any caller-owned container, nested values included —
+  leaves the pure value of every existing value object unchanged.  The copy-or-alias discipline the theorems
+  are proved for is tied to the source by `C11_facts_alias_discipline` / `C11_facts_alias_writers`
+  (factgen/c11.go reads it off /repo on every run) and by the `alias-history` correspondence.
 -/
 import CedarGoProofs.Lemmas.C11Hash
 import CedarGoProofs.Lemmas.C11Rec
+import CedarGoProofs.Lemmas.C11AliasStep
+import CedarGo.Generated.Facts
 
 namespace CedarGo
 open C11
@@ -293,5 +304,179 @@ example :
     (newSet goHash [.bool true, .long 1]).contains goHash (.decimal 1) = false ∧
     (newSet goHash [.bool true, .long 1]).equal goHash (newSet goHash [.bool true, .decimal 1]) = false := by
   decide +kernel
+
+/-! ## Values are immutable (reference-level model: CedarGo/Model/Alias.lean)
+
+  `State` = heap (address ↦ container) + the references of slice / map type the caller holds (`owned`) + the
+  value objects it keeps (`live`).  `abs h v` is the pure `Value` a value object denotes.  `Inv` is the
+  separation invariant: no container referred to by a value object (anywhere: in a variable or stored in a
+  container, at any nesting depth) is a container the caller holds a slice / map reference to; plus
+  well-formedness (references point into the heap, internal containers refer to older containers only).
+  `Disc` says which constructors / accessors copy; `goDisc` (all copy) is the unchanged tree. -/
+
+open Alias in
+/-- **One step.**  Under the discipline of the unchanged tree, EVERY operation — allocation by the caller,
+    `NewRecord` / `NewSet` / `NewEntityUIDSet` on a caller container or on nil, `Map()`, `Get`, the iterators,
+    `Slice()`, `UnmarshalJSON` into a copy of a value, set / delete / clear on a caller map, overwrite / fill /
+    append (in place when capacity allows) / reslice on a caller slice, reading a value back out of a caller
+    container (entity fields) — preserves the invariant, keeps every live value object, and leaves the pure
+    value of every live value object exactly as it was. -/
+theorem C11_immutable_step (d : Disc) (hd : d.Safe) (s : State) (hs : Inv s) (op : Op) :
+    Inv (step d s op) ∧ ∀ v ∈ s.live, v ∈ (step d s op).live ∧ abs (step d s op).heap v = abs s.heap v := by
+  have hd' : d = goDisc := hd
+  subst hd'
+  have st := step_isStep s hs op
+  exact ⟨st.inv, fun v hv => ⟨st.live v hv, st.abs_eq hs hv⟩⟩
+
+open Alias in
+/-- **Every history.**  From any state satisfying the invariant, after any list of operations, every value
+    object that was live denotes the value it denoted. -/
+theorem C11_immutable_histories (d : Disc) (hd : d.Safe) (ops : List Op) (s : State) (hs : Inv s) :
+    Inv (run d ops s) ∧ ∀ v ∈ s.live, v ∈ (run d ops s).live ∧ abs (run d ops s).heap v = abs s.heap v := by
+  induction ops generalizing s with
+  | nil => exact ⟨hs, fun v hv => ⟨hv, rfl⟩⟩
+  | cons op rest ih =>
+    obtain ⟨hi, hl⟩ := C11_immutable_step d hd s hs op
+    obtain ⟨hi', hl'⟩ := ih (step d s op) hi
+    refine ⟨hi', fun v hv => ?_⟩
+    obtain ⟨hv₁, e₁⟩ := hl v hv
+    obtain ⟨hv₂, e₂⟩ := hl' v hv₁
+    exact ⟨hv₂, e₂.trans e₁⟩
+
+open Alias in
+/-- the invariant holds initially (nothing allocated, nothing held) -/
+theorem C11_immutable_inv_init : Inv init := by
+  refine ⟨?_, ?_, ?_, ?_⟩ <;> simp [init, State.objs]
+
+open Alias in
+/-- **From creation on.**  Whatever history `before` created a value object, and whatever history `after`
+    follows — any constructor-input or accessor-output mutation included — the object denotes, in the final
+    heap, the value it denoted in the heap at its creation. -/
+theorem C11_immutable_histories_from_creation (d : Disc) (hd : d.Safe) (before after : List Op) :
+    ∀ v ∈ (run d before init).live,
+      v ∈ (run d (before ++ after) init).live ∧
+      abs (run d (before ++ after) init).heap v = abs (run d before init).heap v := by
+  have h₁ := (C11_immutable_histories d hd before init C11_immutable_inv_init).1
+  have h₂ := (C11_immutable_histories d hd after (run d before init) h₁).2
+  simpa [run, List.foldl_append] using h₂
+
+open Alias in
+/-- the discipline of the unchanged tree is the safe one (so the theorems above are about it) -/
+theorem C11_immutable_go_discipline_safe : goDisc.Safe := rfl
+
+open Alias in
+/-- **Tie to the source (a).**  What factgen's alias extractor (factgen/c11.go) reads off types/record.go,
+    set.go, entity.go, entity_uid.go and internal/mapset on this run — for each modelled constructor / accessor
+    / iterator / decoder: parameter cloned or only read, result a clone / a fresh struct / an element / a
+    read-only iterator, receiver replaced with fresh storage, value-typed struct fields — is exactly the
+    discipline `goDisc` the model runs with.  `NewRecord` starting to alias an empty map (seeded C11-m2, -m5)
+    turns `types.NewRecord.param.m` into `cloned-if(len(m)>0)` and this theorem no longer checks. -/
+theorem C11_facts_alias_discipline : Facts.aliasFacts = Alias.modelDiscipline := by decide
+
+open Alias in
+/-- the only functions of the analysed types that write through their receiver are the decoders (which
+    replace the receiver with fresh storage) and `Add` / `Remove` of the mutable builder `mapset.MapSet` -/
+theorem C11_facts_alias_writers : Facts.aliasWriters = Alias.modelWriters := by decide
+
+/-! ### the hypothesis is needed: the same model with a constructor / accessor / decoder that aliases -/
+
+namespace Alias
+/-- the caller's map `{"a": 1}` at address 0 -/
+def exMap : State := run goDisc [.mkMap [("a", .scalar (.long 1))]] init
+/-- an EMPTY non-nil caller map at address 0 -/
+def exEmptyMap : State := run goDisc [.mkMap []] init
+def aliasCtor : Disc := { goDisc with newRecord := .alias }
+def aliasEmptyCtor : Disc := { goDisc with newRecord := .aliasWhenEmpty }
+def aliasAccessor : Disc := { goDisc with recordMap := .alias }
+def aliasDecoder : Disc := { goDisc with unmarshalRecord := .alias }
+end Alias
+
+open Alias in
+/-- **Contrast: an aliasing constructor.**  The same model in which `NewRecord` stores the caller's map
+    instead of a clone.  From the state holding the caller's map `{"a": 1}` (which satisfies the invariant),
+    the two-step history `r := NewRecord(m); m["a"] = 2` breaks the invariant at the first step and changes
+    the value of `r` at the second: `{"a": 1}` before, `{"a": 2}` after. -/
+theorem C11_alias_constructor_counterexample :
+    Inv exMap ∧
+    ¬ Inv (run aliasCtor [.newRecord (some 0)] exMap) ∧
+    ∃ v, (run aliasCtor [.newRecord (some 0)] exMap).live[0]? = some v ∧
+      (run aliasCtor [.newRecord (some 0), .setKey 0 "a" (.scalar (.long 2))] exMap).live[0]? = some v ∧
+      Value.beq (abs (run aliasCtor [.newRecord (some 0)] exMap).heap v) (mkRecord [("a", .long 1)]) = true ∧
+      Value.beq (abs (run aliasCtor [.newRecord (some 0), .setKey 0 "a" (.scalar (.long 2))] exMap).heap v)
+        (mkRecord [("a", .long 2)]) = true ∧
+      Value.beq (abs (run aliasCtor [.newRecord (some 0), .setKey 0 "a" (.scalar (.long 2))] exMap).heap v)
+        (abs (run aliasCtor [.newRecord (some 0)] exMap).heap v) = false := by
+  refine ⟨(C11_immutable_histories goDisc rfl _ init C11_immutable_inv_init).1, ?_, .ref .record (some 0), rfl, rfl, ?_, ?_, ?_⟩
+  · intro h
+    exact h.sep ⟨0, 1⟩ (List.mem_of_getElem? (i := 0) rfl) (.ref .record (some 0))
+      (mem_objs.mpr (.inl (List.mem_of_getElem? (i := 0) rfl))) rfl
+  · decide +kernel
+  · decide +kernel
+  · decide +kernel
+
+open Alias in
+/-- **Contrast: the shape of seeded defects C11-m2 / C11-m5** (clone only under `len(m) > 0`): a record built
+    from an empty non-nil map changes when the caller fills the map in; built from a non-empty map it does not. -/
+theorem C11_alias_when_empty_counterexample :
+    Inv exEmptyMap ∧
+    ¬ Inv (run aliasEmptyCtor [.newRecord (some 0)] exEmptyMap) ∧
+    ∃ v, (run aliasEmptyCtor [.newRecord (some 0)] exEmptyMap).live[0]? = some v ∧
+      Value.beq (abs (run aliasEmptyCtor [.newRecord (some 0)] exEmptyMap).heap v) (.record []) = true ∧
+      Value.beq (abs (run aliasEmptyCtor [.newRecord (some 0), .setKey 0 "a" (.scalar (.long 2))] exEmptyMap).heap v)
+        (mkRecord [("a", .long 2)]) = true := by
+  refine ⟨(C11_immutable_histories goDisc rfl _ init C11_immutable_inv_init).1, ?_, .ref .record (some 0), rfl, ?_, ?_⟩
+  · intro h
+    exact h.sep ⟨0, 0⟩ (List.mem_of_getElem? (i := 0) rfl) (.ref .record (some 0))
+      (mem_objs.mpr (.inl (List.mem_of_getElem? (i := 0) rfl))) rfl
+  · decide +kernel
+  · decide +kernel
+
+open Alias in
+/-- **Contrast: an aliasing accessor** (`Map()` returning the internal map) and **an in-place decoder**
+    (`UnmarshalJSON` filling the receiver's existing map): in both, a value built correctly (by the copying
+    constructor) changes — through the accessor's output, resp. through a decode into a COPY of the value. -/
+theorem C11_alias_accessor_decoder_counterexample :
+    (∃ v, (run aliasAccessor [.newRecord (some 0)] exMap).live[0]? = some v ∧
+      Value.beq (abs (run aliasAccessor [.newRecord (some 0), .recordMap 0, .setKey 1 "a" (.scalar (.long 2))] exMap).heap v)
+        (abs (run aliasAccessor [.newRecord (some 0)] exMap).heap v) = false) ∧
+    (∃ v, (run aliasDecoder [.newRecord (some 0)] exMap).live[0]? = some v ∧
+      Value.beq (abs (run aliasDecoder [.newRecord (some 0), .unmarshalRecord 0 [("b", .bool true)]] exMap).heap v)
+        (abs (run aliasDecoder [.newRecord (some 0)] exMap).heap v) = false) := by
+  refine ⟨⟨.ref .record (some 1), rfl, ?_⟩, ⟨.ref .record (some 1), rfl, ?_⟩⟩
+  · decide +kernel
+  · decide +kernel
+
+/-! ### non-vacuity: a history with nested values on the real discipline -/
+
+namespace Alias
+/-- s := []Value{1, 2}; A := NewSet(s...); m := RecordMap{"k": A, "n": 7}; R := NewRecord(m);
+    s[0] = 9; m["k"] = 0; delete(m, "n"); m2 := R.Map(); m2["k"] = false; A' := R.Get("k");
+    sl := A'.Slice(); fill sl with 5; append(s[:1], 8) (in place); R2 := copy of R; R2.UnmarshalJSON({"z": 1});
+    e := Entity{Attributes: R}; e2 := e; e2.Attributes = R2; T := NewSet(s...) -/
+def exHistory : List Op := [
+  .mkSlice [.scalar (.long 1), .scalar (.long 2)], .newSet (some 0),
+  .mkMap [("k", .live 0), ("n", .scalar (.long 7))], .newRecord (some 1),
+  .setElem 0 0 (.scalar (.long 9)), .setKey 1 "k" (.scalar (.long 0)), .delKey 1 "n",
+  .recordMap 1, .setKey 2 "k" (.scalar (.bool false)), .recordGet 1 "k",
+  .setSlice 2, .fillSlice 3 (.scalar (.long 5)), .reslice 0 1, .appendElem 4 (.scalar (.long 8)),
+  .unmarshalRecord 1 [("z", .long 1)],
+  .mkSlice [.live 1], .copyCont 6, .setElem 7 0 (.live 3), .newSet (some 0)]
+end Alias
+
+open Alias in
+/-- the hypotheses are satisfiable and the conclusion is about something: after the history above — every
+    caller container mutated, the set `A` nested in the record `R` — `A` still denotes `[1, 2]`, `R` still
+    `{"k": [1, 2], "n": 7}`, the value handed out by `Get` is `[1, 2]`, the decoded copy is `{"z": 1}`, while
+    the caller's slice is now `[9, 8]` (the set built from it last is `[9, 8]`) and its map `{"k": 0}`. -/
+example :
+    Inv (run goDisc exHistory init) ∧
+    ((run goDisc exHistory init).live.zipWith (fun v w => Value.beq (abs (run goDisc exHistory init).heap v) w)
+      [mkSet [.long 1, .long 2],
+       mkRecord [("k", mkSet [.long 1, .long 2]), ("n", .long 7)],
+       mkSet [.long 1, .long 2],
+       mkRecord [("z", .long 1)],
+       mkSet [.long 9, .long 8]]) = [true, true, true, true, true] ∧
+    (run goDisc exHistory init).live.length = 5 :=
+  ⟨(C11_immutable_histories goDisc rfl _ init C11_immutable_inv_init).1, by decide +kernel, by decide +kernel⟩
 
 end CedarGo
